@@ -9,7 +9,14 @@ PROPS["C01"] = {
                     "it is self-checked on every generated text (printer -> parser identity)",
                     "number accuracy judged by the C12 tolerances; position of a repeated key may be first or last occurrence",
                     "default configuration (DECODE_UNICODE=1, nesting limit 10)"],
-    "quick": [{"src": "checks/ix_valid.cpp", "mode": "valid", "deps": ["checks/ix_valid.hpp"]}],
-    "thorough": [{"src": "checks/ix_valid.cpp", "mode": "valid", "deps": ["checks/ix_valid.hpp"]}],
+    "quick": [{"src": "checks/ix_valid.cpp", "mode": "valid", "deps": ["checks/ix_valid.hpp"]},
+              # a small non-power-of-two pool geometry: the same texts must give the same documents
+              {"src": "checks/ix_valid.cpp", "mode": "valid", "deps": ["checks/ix_valid.hpp"], "args": ["--nodes=2"],
+               "defs": ["ARDUINOJSON_SLOT_ID_SIZE=1", "ARDUINOJSON_POOL_CAPACITY=7", "ARDUINOJSON_INITIAL_POOL_COUNT=3"]}],
+    "thorough": [{"src": "checks/ix_valid.cpp", "mode": "valid", "deps": ["checks/ix_valid.hpp"]},
+                 {"src": "checks/ix_valid.cpp", "mode": "valid", "deps": ["checks/ix_valid.hpp"], "args": ["--nodes=3", "--deep-nodes=0"],
+                  "defs": ["ARDUINOJSON_SLOT_ID_SIZE=1", "ARDUINOJSON_POOL_CAPACITY=7", "ARDUINOJSON_INITIAL_POOL_COUNT=3"]},
+                 {"src": "checks/ix_valid.cpp", "mode": "valid", "deps": ["checks/ix_valid.hpp"], "args": ["--nodes=3", "--deep-nodes=0"],
+                  "defs": ["ARDUINOJSON_SLOT_ID_SIZE=2", "ARDUINOJSON_POOL_CAPACITY=100", "ARDUINOJSON_STRING_LENGTH_SIZE=1"]}],
     "thorough_deadline": 1500,
 }
